@@ -300,11 +300,11 @@ func (c *ClusterInfo) Sync(cluster *proxyv1alpha1.UpstreamCluster) error {
 
 	klog.V(5).Infof("[cluster info] syncing cluster info, name=%q", c.Cluster)
 
-	if cluster.Annotations != nil {
-		if err := c.syncFeatureGate(cluster.Annotations); err != nil {
-			// we should never get here because there is validating admission
-			return err
-		}
+	// also when the object has no annotations at all: the gates of an earlier
+	// version of the object must not stay in force
+	if err := c.syncFeatureGate(cluster.Annotations); err != nil {
+		// we should never get here because there is validating admission
+		return err
 	}
 
 	// sync flow control type
@@ -567,7 +567,14 @@ func (c *ClusterInfo) syncFeatureGate(annotations map[string]string) error {
 		}
 		return nil
 	}
-	return c.featuregate.Set(featuregate)
+	// start from the defaults: Set() merges into the gates it is called on, so
+	// a gate dropped from the annotation would otherwise stay switched on
+	gates := features.DefaultMutableFeatureGate.DeepCopy()
+	if err := gates.Set(featuregate); err != nil {
+		return err
+	}
+	c.featuregate = gates
+	return nil
 }
 
 // upstream policy    enabled
